@@ -45,6 +45,15 @@ func (h *Cache) Push(data []byte, epoch, messageSequence uint16, typ handshake.T
 	h.mu.Lock()
 	defer h.mu.Unlock()
 
+	// A retransmitted flight is pushed again with every transmission: keep one
+	// copy, or the cache grows with every retransmission a peer provokes.
+	for _, item := range h.cache {
+		if item.MessageSequence == messageSequence && item.IsClient == isClient && item.Epoch == epoch &&
+			item.Typ == typ && bytes.Equal(item.Data, data) {
+			return
+		}
+	}
+
 	h.cache = append(h.cache, &HandshakeCacheItem{
 		Data:            bytes.Clone(data),
 		Epoch:           epoch,
